@@ -721,7 +721,7 @@ def evaluate(ctx, cases):
         mo = model_out(c, answers[s:s + n])
         inp = public(c)
         feats = set(c["features"])
-        nontrivial = bool(feats & {"chain", "legacy", "quoted_arg"})
+        nontrivial = bool(feats & {"chain", "legacy", "quoted_arg", "enumerated_conds"})
         ctx.hist("kind=" + c["kind"])
         for f in c["features"]:
             ctx.hist("feature=" + f)
@@ -764,10 +764,98 @@ def evaluate(ctx, cases):
             ctx.fail(clause, inp, io_, mo_cmp if not declined else mo, note=detail, finding=cls)
 
 
+def enum_chain_cases():
+    """Exhaustive small enumeration of block structures: chains of 1-3 branches, every branch and the else branch
+    empty or holding one command, else present or not, optionally a command before and after; conditions are
+    `FLAVOR == Fi` with distinct flavors, evaluated for every Fi and for an unmentioned flavor, so that every
+    position of the first true branch (and 'none true') occurs.  Plain layout."""
+    fl = ["Linux", "Darwin", "Linux64"]
+    out = []
+
+    def cmd(i):
+        return {"name": "envSet", "spelled": "envSet", "args": [{"v": "V%d" % i, "q": False}, {"v": str(i), "q": False}],
+                "seps": [", "], "pad": False, "gap": "", "semi": ""}
+    import itertools
+    for nb in (1, 2, 3):
+        for bodies in itertools.product([0, 1], repeat=nb):
+            for els in (None, 0, 1):
+                for outer in (False, True):
+                    k = 0
+                    items = []
+                    if outer:
+                        items.append({"k": "cmd", "c": cmd(90)})
+                    branches = []
+                    for b in range(nb):
+                        cs = []
+                        if bodies[b]:
+                            cs.append(cmd(k))
+                            k += 1
+                        branches.append({"cond": ["atom", "FLAVOR", False, fl[b]], "cmds": cs})
+                    e = None if els is None else ([cmd(50)] if els else [])
+                    items.append({"k": "chain", "branches": branches, "els": e})
+                    if outer:
+                        items.append({"k": "cmd", "c": cmd(91)})
+                    lines = []
+                    for it in items:
+                        if it["k"] == "cmd":
+                            lines.append("envSet(%s, %s)" % (it["c"]["args"][0]["v"], it["c"]["args"][1]["v"]))
+                            continue
+                        for i, br in enumerate(it["branches"]):
+                            lines.append(("} else if" if i else "if") + " (FLAVOR == %s) {" % br["cond"][3])
+                            lines += ["  envSet(%s, %s)" % (c["args"][0]["v"], c["args"][1]["v"]) for c in br["cmds"]]
+                        if it["els"] is not None:
+                            lines.append("} else {")
+                            lines += ["  envSet(%s, %s)" % (c["args"][0]["v"], c["args"][1]["v"]) for c in it["els"]]
+                        lines.append("}")
+                    envs = [{"flavor": f, "types": []} for f in fl[:nb] + ["SunOS"]]
+                    out.append({"kind": "table", "text": "\n".join(lines) + "\n", "envs": envs,
+                                "expect": [denote_table(items, v["flavor"], v["types"]) for v in envs], "conds": [],
+                                "features": sorted(table_features(items) | {"enumerated"})})
+    return out
+
+
+def enum_cond_cases(max_depth):
+    """Exhaustive enumeration of conditions up to a depth over 2 flavors and 2 types (atoms: FLAVOR/TYPE x ==/!= x
+    2 words), minimal parentheses, evaluated for 3 flavors x {no type, one, two}."""
+    atoms = [["atom", v, n, w] for v, ws in (("FLAVOR", ["Linux", "Darwin"]), ("TYPE", ["build", "exact"])) for n in (False, True) for w in ws]
+    levels = [atoms]
+    for _d in range(max_depth):
+        prev = [e for lv in levels for e in lv]
+        levels.append([[op, a, b] for op in ("and", "or") for a in prev for b in prev if cond_depth([op, a, b]) == len(levels)])
+    envs = [{"flavor": f, "types": t} for f in ("Linux", "Darwin", "SunOS") for t in ([], ["build"], ["build", "exact"])]
+
+    def txt(e, prec=0):
+        if e[0] == "atom":
+            return "%s %s %s" % (e[1], "!=" if e[2] else "==", e[3])
+        own = 1 if e[0] == "and" else 0
+        s_ = txt(e[1], own) + (" && " if own else " || ") + txt(e[2], own + 1)
+        return "(" + s_ + ")" if own < prec else s_
+    out = []
+    chunk = []
+    for e in [e for lv in levels for e in lv]:
+        chunk.append({"text": txt(e), "expect": [denote_cond(e, v["flavor"], v["types"]) for v in envs]})
+        if len(chunk) == 40:
+            out.append({"kind": "conds", "text": "", "envs": envs, "expect": None, "conds": chunk, "features": ["enumerated_conds"]})
+            chunk = []
+    if chunk:
+        out.append({"kind": "conds", "text": "", "envs": envs, "expect": None, "conds": chunk, "features": ["enumerated_conds"]})
+    return out
+
+
 def run(ctx):
     cases = corpus_cases()
     ctx.hist("corpus", len(cases))
     evaluate(ctx, cases)
+    # exhaustive small enumerations: block structures (both tiers), conditions (depth 1 quick, depth 2 thorough)
+    en = enum_chain_cases()
+    ctx.hist("enumerated_chains", len(en))
+    evaluate(ctx, en)
+    ec = enum_cond_cases(ctx.n(1, 2))
+    ctx.hist("enumerated_cond_batches", len(ec))
+    for i in range(0, len(ec), 200):
+        if ctx.out_of_time():
+            break
+        evaluate(ctx, ec[i:i + 200])
     n = ctx.n(3000, 100000)
     batch = 1500
     done = 0
